@@ -71,6 +71,23 @@ def parse_template(text):
             out.append(('consts', spec))
             i += 1
             continue
+        if d and d.group(1) == 'importlemma':
+            # `//@importlemma unit :: name [as newname]`: the statement (signature, requires, ensures) of a proof fn that unit
+            # `unit` proves, declared here without proof - the same text, so the two cannot drift apart
+            u, _, nm = d.group(2).partition('::')
+            nm = nm.strip()
+            rename = None
+            mo_as = re.search(r'\s+as\s+([A-Za-z_][A-Za-z0-9_]*)\s*$', nm)
+            if mo_as:
+                rename = mo_as.group(1)
+                nm = nm[:mo_as.start()].strip()
+            spec = ItemSpec('', nm, i + 1)
+            spec.indent = re.match(r'\s*', ln).group(0)
+            spec.import_from = u.strip()
+            spec.rename = rename
+            out.append(('importlemma', spec))
+            i += 1
+            continue
         if d and d.group(1) in ('import', 'import!'):
             u, _, rest = d.group(2).partition('::')
             crate, _, path = rest.partition('::')
@@ -539,6 +556,42 @@ def build_import(src, spec, log, read_template):
     return [GenLine(spec.indent + l if l.strip() else l, ('tmpl', spec.tline)) for l in lines]
 
 
+def build_importlemma(spec, log, read_template):
+    text = read_template(spec.import_from)
+    mo = re.search(r'^[ \t]*(?:pub\s+)?(?:broadcast\s+)?proof fn\s+%s\s*(?:<[^>]*>)?\(' % re.escape(spec.path), text, re.M)
+    if not mo:
+        raise ExtractError('importlemma: unit %s has no proof fn %s' % (spec.import_from, spec.path))
+    m = mask(text)
+    # the body is the first `{` at bracket depth 0 after the header that is not inside `ensures ({ .. })`
+    j = mo.end() - 1
+    j = match_close(m, j) + 1
+    depth = 0
+    while j < len(m):
+        c = m[j]
+        if c in '([':
+            depth += 1
+        elif c in ')]':
+            depth -= 1
+        elif c == '{' and depth == 0:
+            break
+        j += 1
+    header = text[mo.start():j].rstrip()
+    body_end = match_close(m, j)
+    if 'admit()' in text[j:body_end] or 'assume(' in text[j:body_end]:
+        raise ExtractError('importlemma: %s in unit %s is not proved (admit/assume in its body)' % (spec.path, spec.import_from))
+    # it must not be an external_body declaration itself
+    pre = text[max(0, mo.start() - 200):mo.start()]
+    if re.search(r'external_body\]\s*$', pre.rstrip()):
+        raise ExtractError('importlemma: %s in unit %s is itself unproved (external_body)' % (spec.path, spec.import_from))
+    if spec.rename:
+        header = re.sub(r'proof fn\s+%s' % re.escape(spec.path), 'proof fn ' + spec.rename, header, count=1)
+    if not header.lstrip().startswith('pub'):
+        header = 'pub ' + header.lstrip()
+    log.setdefault('imports', []).append({'from_unit': spec.import_from, 'item': 'proof fn ' + spec.path})
+    lines = ['#[verifier::external_body]'] + header.split('\n') + ['{}']
+    return [GenLine(spec.indent + l if l.strip() else l, ('tmpl', spec.tline)) for l in lines]
+
+
 def build_unit(name, template_text, sources, read_template=None):
     """sources: {crate: Source}"""
     log = {'rewrites': [], 'subs': [], 'dropped': 'doc comments, attributes (#[derive], #[inline], ...), '
@@ -577,6 +630,9 @@ def build_unit(name, template_text, sources, read_template=None):
                     lines.extend(gl)
                     items.append((sub, item, first, len(lines)))
                     idx += 1
+        elif p[0] == 'importlemma':
+            spec = p[1]
+            lines.extend(build_importlemma(spec, log, read_template))
         elif p[0] == 'import':
             spec = p[1]
             if spec.crate not in sources:
